@@ -29,7 +29,9 @@ RULE = ('scripted non-decreasing clocks (ints and dyadic rationals, repeats '
         'running False and current world/handle unchanged, other exceptions '
         'reach the caller as the same object. Non-trivial = a fault at a '
         'processor that is not the last of its frame followed by a restart, '
-        'or a dt across a switch.')
+        'or a dt across a switch.'
+        ' Round 14 added: Quit raised by a resource load inside a world file'
+        ' during a switch.')
 ANCHORS = [
     'desper/loop.py::Loop.start',
     'desper/loop.py::SimpleLoop.start',
